@@ -254,7 +254,11 @@ def rand_split_vectors(n, seed):
             t = T.rand_tier(rng, rng.choice(["I", "P"]), 3, total)
             others.append(t)
         rate, width = PLANS[rng.randrange(len(PLANS))]
-        out.append(({"pre": pre, "entries": ents, "others": others, "style": rng.choice([None, "append", "append_no_i", "label"]),
+        style = rng.choice([None, "append", "append_no_i", "label"])
+        if style in (None, "append") and rng.random() < 0.4:
+            for x in ents:
+                x["l"] = "w1"            # entries sharing a label: these two styles still name one file per entry (the index)
+        out.append(({"pre": pre, "entries": ents, "others": others, "style": style,
                      "nopartial": rng.random() < 0.5, "tgflag": rng.random() < 0.6}, rate, width))
     return out
 
